@@ -3,9 +3,11 @@ package main
 import (
 	"flag"
 	"go/ast"
+	"sort"
 	"fmt"
 	"os"
 	"runtime/debug"
+	"runtime/pprof"
 	"strconv"
 	"strings"
 )
@@ -28,13 +30,20 @@ func main() {
 		explainCmd(os.Args[2:])
 		return
 	}
-	prop := flag.String("property", "", "property id (C01..C20)")
+	prop := flag.String("property", "", "property id (C01..C20), or a comma separated list / 'all' (one process, shared program; for sweeps)")
 	tier := flag.String("tier", "", "quick|thorough")
 	repo := flag.String("repo", "/repo", "repository working tree")
 	verif := flag.String("verif", "/verif", "verification directory")
 	control := flag.String("control", "", "apply a positive-control edit (JSON file) in memory before analysing")
 	outDir := flag.String("out", "", "directory for evidence/ and out/ (default: the verification directory)")
+	cpuprof := flag.String("cpuprofile", "", "write a CPU profile")
 	flag.Parse()
+	debug.SetGCPercent(200)
+	if *cpuprof != "" {
+		f, _ := os.Create(*cpuprof)
+		pprof.StartCPUProfile(f)
+		defer pprof.StopCPUProfile()
+	}
 	if *outDir == "" {
 		*outDir = *verif
 	}
@@ -45,6 +54,9 @@ func main() {
 		*tier = "quick"
 	}
 	seed, _ := strconv.Atoi(os.Getenv("VERIF_SEED"))
+	if *prop == "all" || strings.Contains(*prop, ",") {
+		os.Exit(runMany(*prop, *tier, *repo, *verif, *outDir, seed, *control))
+	}
 	spec, ok := properties[*prop]
 	if !ok {
 		fmt.Printf("UNDECIDED property=%s reason=unknown property\n", *prop)
@@ -60,7 +72,51 @@ func main() {
 		overlay = ov
 	}
 	code := runProperty(*prop, spec, *tier, *repo, *verif, *outDir, seed, overlay)
+	pprof.StopCPUProfile()
 	os.Exit(code)
+}
+
+// runMany analyses several properties over one loaded program (sweeps over seeded changes and
+// refactorings). Prints one "== <id> exit=<code>" line per property; exit code is the maximum.
+func runMany(list, tier, repo, verif, outDir string, seed int, control string) int {
+	var ids []string
+	if list == "all" {
+		for id := range properties {
+			if id != "X" {
+				ids = append(ids, id)
+			}
+		}
+		sort.Strings(ids)
+	} else {
+		ids = strings.Split(list, ",")
+	}
+	var overlay map[string][]byte
+	if control != "" {
+		ov, err := controlOverlay(repo, control)
+		if err != nil {
+			fmt.Printf("CONTROL-STALE %s: %v\n", control, err)
+			return 3
+		}
+		overlay = ov
+	}
+	p, err := Load(repo, true, overlay)
+	if err != nil {
+		fmt.Printf("UNDECIDED property=all reason=load failed: %v\n", err)
+		return 2
+	}
+	max := 0
+	for _, id := range ids {
+		spec, ok := properties[id]
+		if !ok {
+			continue
+		}
+		code := runLoaded(p, id, spec, tier, repo, verif, outDir, seed, overlay != nil)
+		fmt.Printf("== %s exit=%d\n", id, code)
+		if code > max {
+			max = code
+		}
+	}
+	return max
 }
 
 func runProperty(prop string, spec propSpec, tier, repo, verif, outDir string, seed int, overlay map[string][]byte) (code int) {
@@ -69,6 +125,10 @@ func runProperty(prop string, spec propSpec, tier, repo, verif, outDir string, s
 		fmt.Printf("UNDECIDED property=%s reason=load failed: %v\n", prop, err)
 		return 2
 	}
+	return runLoaded(p, prop, spec, tier, repo, verif, outDir, seed, overlay != nil)
+}
+
+func runLoaded(p *Program, prop string, spec propSpec, tier, repo, verif, outDir string, seed int, isControl bool) (code int) {
 	r := NewRun(p, prop, tier, seed)
 	r.Spec = &spec
 	defer func() {
@@ -86,7 +146,7 @@ func runProperty(prop string, spec propSpec, tier, repo, verif, outDir string, s
 	for _, a := range spec.Assumptions {
 		r.Assume(a)
 	}
-	if tier == "thorough" && overlay == nil {
+	if tier == "thorough" && !isControl {
 		runControls(r, prop, repo, verif)
 	}
 	return r.Finish(verif, outDir, spec.Explanation)
